@@ -6,6 +6,7 @@
   of the exact values: `f >= k ⟺ k ≤ ⌊f⌋`, `f > k ⟺ k < ⌈f⌉`, … (never true for NaN; ±Inf by sign).
 -/
 import GojaModel.C05.Model
+import GojaModel.C05.StrNum
 
 namespace GojaModel.C05.Gen
 open GojaModel GojaModel.Num
